@@ -200,6 +200,9 @@ class X:
     # --- attribute / subscript
     def e_Attribute(self, e, env):
         if isinstance(e.value, ast.Name) and e.value.id == "self" and self.ctx.fn.cls and "self" not in env:
+            for key, coq, ty in self.ctx.fn.state:
+                if key == "@" + e.attr:
+                    return coq, ty, []
             fail(e, "attribute self.%s" % e.attr)
         c, t, b = self.tx(e.value, env)
         table = {("cond", "antecedence"): ("cante", "form"), ("cond", "consequence"): ("ccons", "form"),
@@ -636,6 +639,13 @@ class X:
         fail(e, "call of %s" % name)
 
     def call_method(self, e, f, env):
+        # self.symbolize_bitvec(world): the literals of a world
+        if isinstance(f.value, ast.Name) and f.value.id == "self" and self.ctx.fn.cls and "self" not in env \
+                and f.attr == "symbolize_bitvec" and len(e.args) == 1 and not e.keywords:
+            c, t, b = self.tx(e.args[0], env)
+            if t != "world":
+                fail(e, "symbolize_bitvec of %r" % (t,))
+            return "(world_lits %s)" % c, ("list", "form"), b
         # self.method(...)
         if isinstance(f.value, ast.Name) and f.value.id == "self" and self.ctx.fn.cls and "self" not in env:
             fn = self.ctx.table.get("%s.%s" % (self.ctx.fn.cls, f.attr))
@@ -1169,7 +1179,7 @@ class B:
 
 # ------------------------------------------------------------------------------------------------ driver
 COQ_TYPES = {"bool": "bool", "int": "Z", "form": "form", "cond": "cond", "solver": "solver", "str": "unit", "none": "unit",
-             "bb": "pybase", "deadline": "unit", "wcnf": "wcnf", "sclause": "sclause", "optimizer": "unit", "tseitin": "unit"}
+             "bb": "pybase", "deadline": "unit", "wcnf": "wcnf", "sclause": "sclause", "optimizer": "unit", "tseitin": "unit", "world": "world"}
 
 
 def coq_type(t):
@@ -1339,6 +1349,12 @@ TARGETS = [
            cls="LexInf", ret="bool", state=W_STATE),
         Fn("_inference", "py_LexInf_inference", [("query", "cond"), ("weakly", "bool"), ("deadline", "deadline")],
            cls="LexInf", ret="bool", state=W_STATE + [("belief_base", "es_belief_base", "bb"), ("smt_solver", "es_smt_solver", "str")]),
+    ]),
+    dict(out="SrcZocf", file="inference/preocf.py", requires=["SrcCond"], funcs=[
+        Fn("_rec_z_rank", "py_SystemZPreOCF_rec_z_rank", [("solver", "solver"), ("partition_index", "int")],
+           cls="SystemZPreOCF", ret="int", state=[("@_z_partition", "at_z_partition", PART_OBJ)]),
+        Fn("z_part2ocf", "py_SystemZPreOCF_z_part2ocf", [("world", "world")],
+           cls="SystemZPreOCF", ret="int", state=[("@_z_partition", "at_z_partition", PART_OBJ)]),
     ]),
     dict(out="SrcP", file="inference/p_entailment.py", requires=["SrcCond", "SrcCons"], funcs=[
         Fn("_inference", "py_PEntailment_inference", [("query", "cond"), ("weakly", "bool"), ("deadline", "deadline")],
